@@ -5,6 +5,7 @@ import Pymc.Proofs.HashCallSetExamples
 import Pymc.Proofs.HashPooledCallExamples
 import Pymc.Proofs.HashPooledCallManyExamples
 import Pymc.Proofs.HashBroadcastExamples
+import Pymc.Proofs.HashBroadcastMixedExamples
 /-!
 # C13 — failover: bounded probing, eviction, rerouting, recovery
 
@@ -1427,5 +1428,81 @@ example :
   decide +kernel
 
 end hashpooledmany
+
+/-! ## `HashClient ∘ Client`: histories that mix key-addressed calls and broadcasts — the bookkeeping invariants
+
+`C13_hash_no_internal_error` (and the `…_many_…` / `…_hashpooled_…` variants) speak about histories of key-addressed calls.  A
+broadcast leads to bookkeeping states no key-addressed call reaches: a server that is out of rotation *and* has a failure
+record (a broadcast contacted it although `hasher.get_node` would never return it), a dead time that was reset, and the
+state `remove_server` leaves behind when `hasher.remove_node` raises half-way (`_failed_clients.pop(server)` and
+`_dead_clients[server] = now` done, the hasher unchanged).  The theorems below carry the invariants through all of them
+(`Pymc/Proofs/HashBroadcastMixed.lean`: every statement of `_safely_run_func` / `_mark_failed_server` / `remove_server` as a
+broadcast runs them; `Pymc/Proofs/HashBroadcastMixedKeyed.lean`: every key-addressed call from a state with the invariants),
+by induction over the history — no hypothesis on the clock, on the configuration, or on how the calls end (in particular no
+`projOK`: the invariants survive an illegal key in the middle of a `get_many` and a `BaseException` under `ignore_exc`, which
+the projection onto the abstract model does not). -/
+section hashbroadcastmixed
+
+variable {RK : Type}
+
+/-- C13 (`HashClient ∘ Client`, mixed histories: the bookkeeping invariants).  After every history of key-addressed calls and
+broadcasts on a fresh `HashClient`: the rotation, `_dead_clients` and `self.clients` hold every server at most once; with
+`retry_attempts = 0` there is no failure record; a server with a dead time is out of rotation; and every server in rotation
+has a client object registered in `self.clients` (rotation ⊆ registered). -/
+theorem C13_hash_broadcast_mixed_bookkeeping_invariants (ccfg : Wire.Cfg) (c : Cfg) (route : List Srv → RK → Option Srv)
+    (hlaw : RouteLaw route) (servers : List Srv) (t0 : Time) (calls : List (HashCall.BCall RK)) :
+    let st := (HashCall.runB ccfg c route (HashCall.init servers t0) 0 calls).1
+    st.fo.nodes.Nodup ∧ (keys st.fo.dead).Nodup ∧ st.servers.Nodup ∧
+    (c.ra = 0 → st.fo.failed = []) ∧
+    (∀ s td, alookup s st.fo.dead = some td → s ∉ st.fo.nodes) ∧
+    (∀ s ∈ st.fo.nodes, ∃ cl, alookup s st.clients = some cl) := by
+  intro st
+  have hb := (HashCall.runB_book ccfg route hlaw (HashCall.init servers t0) 0 calls (HashCall.book_init c servers t0)).1
+  have hn := HashCall.runB_nodup ccfg c route (HashCall.init servers t0) 0 calls (HashCall.nodup_init servers t0)
+  exact ⟨hb.wf.nodesNodup, hb.wf.deadNodup, hn, hb.wf.raZero, hb.wf.deadOut, hb.cover⟩
+
+/-- non-vacuity: the state after call 6 of `HashBroadcastExamples.mixedCalls` — a `flush_all()` whose `remove_server(0)` raised
+half-way: server 0 has no failure record any more, a fresh dead time, and was not in rotation to begin with -/
+example :
+    (HashCall.runB {} HashCallExamples.cfgIgnore prefRoute (HashCall.init [0, 1] 0) 0 (HashBroadcastExamples.mixedCalls.take 7)).1.fo =
+      { nodes := [1], failed := [], dead := [(0, 14)], lastDeadCheck := 10 } ∧
+    (HashCall.runB {} HashCallExamples.cfgIgnore prefRoute (HashCall.init [0, 1] 0) 0 (HashBroadcastExamples.mixedCalls.take 4)).1.fo =
+      { nodes := [1], failed := [(0, 1, 6)], dead := [(0, 4)], lastDeadCheck := 0 } := by
+  refine ⟨by decide +kernel, by decide +kernel⟩
+
+/-- C13 (`HashClient ∘ Client`, mixed histories: **no internal bookkeeping error on the key-addressed paths**).  In every
+history of key-addressed calls and broadcasts on a fresh `HashClient`, no key-addressed call — single-key, `get_many` /
+`gets_many`, `set_many`, `delete_many` — ends in `internalError`: every dict `pop` / `del` / lookup of `_get_client`,
+`_retry_dead`, `_safely_run_func`, `_safely_run_set_many`, `_mark_failed_server`, `remove_server` — including
+`self.clients[server]` — and every `hasher.remove_node` on those paths finds its key, also in the states broadcasts leave
+behind.  (`C13_hash_no_internal_error` for histories with broadcasts; the internal `ValueError` a *broadcast* can raise is
+`C13_hash_broadcast_bookkeeping_error_iff`.) -/
+theorem C13_hash_broadcast_mixed_no_internal_error (ccfg : Wire.Cfg) (c : Cfg) (route : List Srv → RK → Option Srv)
+    (hlaw : RouteLaw route) (servers : List Srv) (t0 : Time) (calls : List (HashCall.BCall RK)) :
+    ∀ (i : Nat) (ob : HashCall.MObs),
+      (HashCall.runB ccfg c route (HashCall.init servers t0) 0 calls).2[i]? = some (.keyed ob) →
+      ob.res ≠ .internalError :=
+  (HashCall.runB_book ccfg route hlaw (HashCall.init servers t0) 0 calls (HashCall.book_init c servers t0)).2
+
+/-- non-vacuity: `HashBroadcastExamples.mixedCalls` — call 4, a `get`, finds server 0 revived *with a used-up failure record* (a
+state only broadcasts produce): `remove_server` goes through, the probe is refused, the default comes back; call 7, a `get`
+made after a `flush_all()` whose `remove_server` raised half-way, is served by the revived server — and the `internalError`
+branch is real: from a state that violates the invariants (server 0 in rotation, no client object registered for it) the
+same call does end in it -/
+example :
+    HashBroadcastExamples.xSummary
+        (HashCall.runB {} HashCallExamples.cfgIgnore prefRoute (HashCall.init [0, 1] 0) 0 HashBroadcastExamples.mixedCalls) =
+      [(.inr .done, [(0, some 0), (1, some 1)]), (.inr .done, [(0, some 0), (1, some 1)]),
+       (.inr .done, [(0, some 0), (1, some 1)]), (.inr .done, [(0, some 0), (1, some 1)]),
+       (.inl .default, [(0, some 2)]),
+       (.inr .done, [(0, some 2), (1, some 1)]),
+       (.inr .done, [(0, none), (1, some 1)]),
+       (.inl (.value (.bytes [120])), [(0, some 3)])] ∧
+    (HashCall.callH {} HashCallExamples.cfgIgnore prefRoute
+        { fo := { nodes := [0, 1], failed := [], dead := [], lastDeadCheck := 0 }, clients := [(1, { id := 1 })],
+          nextClient := 2 } 0 10 [0, 1] HashCallExamples.getK {}).2.res = .internalError :=
+  ⟨HashBroadcastExamples.demo_mixed.1, by decide +kernel⟩
+
+end hashbroadcastmixed
 
 end Failover
